@@ -2,7 +2,7 @@
    Ck/CkDtProofs.v / Ck/CkDtObs.v and followed by Print Assumptions.
    Model: Ck/CkFull.v (dt_in_effect, dt_is_triggered, dt_is_expired, dt_can_be_triggered, trigger_dt,
    trigger_all, do_dt_add, remove_dt, do_dt_start_timer, do_dt_cleanup, do_result). *)
-From Icv Require Import Base.Tac Ck.CkState Ck.CkFull Ck.CkDtDefs Ck.CkDtProofs Ck.CkDtObs.
+From Icv Require Import Base.Tac Ck.CkState Ck.CkFull Ck.CkDtDefs Ck.CkDtProofs Ck.CkDtObs Ck.CkDtTimer Ck.CkDtTimerProofs.
 Local Open Scope Z_scope.
 
 (* ---- in effect: fixed throughout [start,end); flexible for duration seconds from the trigger time ---- *)
@@ -79,15 +79,14 @@ Print Assumptions C05_remove_survivors.
 (* ---- start / end once.  For every operation of C05's quantifier, from every state whose trigger and entry
    times lie in (0, now] (DtInv2, an invariant of all runs, see C05_oracle_accepts_model):
    - exactly one DowntimeStart request per downtime that becomes triggered in the step (none while paused),
-     PROVIDED the step shows neither the lost-start nor the start-at-end-instant signature (both are
-     recorded findings, refuted below);
+     PROVIDED the step does not show the lost-start signature (a recorded finding, refuted below);
    - OnDowntimeRemoved exactly for the downtimes that disappear, which only dt_remove / the clean-up timer
      cause; exactly one DowntimeEnd request per removed downtime that had been triggered, none for one that
      never triggered. ---- *)
 Theorem C05_start_end_once : forall c now prev f o,
   DtInv2 now f -> c5_wf_step prev (c5_mk c now f o) = true ->
   let s := c5_mk c now f o in
-  (c5_sig_loststart (c_kind (fc_base c)) s = false -> c5_sig_endinstant s = false -> c5_chk_start s = true) /\
+  (c5_sig_loststart (c_kind (fc_base c)) s = false -> c5_chk_start s = true) /\
   c5_chk_removed s = true /\ c5_chk_end s = true.
 Proof. exact start_end_once_step. Qed.
 Print Assumptions C05_start_end_once.
@@ -126,6 +125,45 @@ Theorem C05_oracle_accepts_model_unconditional : forall c h prev f,
 Proof. exact model_trace_proved_checks. Qed.
 Print Assumptions C05_oracle_accepts_model_unconditional.
 
+(* ---- the clean-up timer (Ck/CkDtTimer.v: SetupCleanupTimer / Pause / Resume / the timer pump).
+   TInv = DtInv2 + every downtime has a timer entry, an armed timer is due at the downtime's expiry instant
+   (fixed or untriggered: end_time, else trigger_time + duration), the timer of an unpaused Downtime object is armed.
+   TInv holds initially and is preserved by every operation (incl. pause/resume of the Downtime object);
+   every step of every run passes the proved base checks (when the step runs; a clean-up whose timer is not armed
+   and due changes nothing) and the timer check 14 ---- *)
+Theorem C05_timer_oracle_accepts_model : forall c h prev ts,
+  TInv prev ts -> c5_twf_run c prev ts h = true -> c5_tclean_run c ts h = true ->
+  Forall (fun s => c5_tstep_all (c_kind (fc_base c)) s = true) (c5_tmodel_trace c ts h).
+Proof. exact tmodel_trace_all_checks. Qed.
+Print Assumptions C05_timer_oracle_accepts_model.
+
+(* expired downtimes are removed automatically: for a downtime whose object is not paused, the first timer pump
+   strictly after its expiry instant runs the clean-up handler, removes the downtime, and requests exactly one
+   DowntimeEnd if it had been triggered (none otherwise) *)
+Theorem C05_timer_pump : forall c now ts d,
+  TInv now ts -> In d (f_dts (ts_f ts)) ->
+  (forall t, c5_tm_find (d_id d) (ts_tms ts) = Some t -> tm_paused t = false) ->
+  c5_expiry d < now ->
+  c5_runs now (ts_tms ts) (XOp (OpDtCleanup (d_id d))) = true /\
+  c5_has (d_id d) (f_dts (ts_f (fst (c5_tstep c now ts (XOp (OpDtCleanup (d_id d))))))) = false /\
+  c5_chk_end (c5_mk c now (ts_f ts) (OpDtCleanup (d_id d))) = true.
+Proof. exact pump_removes. Qed.
+Print Assumptions C05_timer_pump.
+
+(* non-vacuity of the timer theorems: fail-over and fail-back before expiry; pumps at 1020 (paused), 1100 (= end_time,
+   not yet due) do nothing, the pump at 1101 removes the downtime with one DowntimeEnd; without the fail-back the
+   downtime stays (Pause() stops the timer by design) *)
+Theorem C05_timer_failover :
+  TInv 0 c5_tinit /\ c5_twf_run wit_cfg 0 c5_tinit wit_failover = true /\ c5_tclean_run wit_cfg c5_tinit wit_failover = true /\
+  c5_toracle KService (c5_tmodel_trace wit_cfg c5_tinit wit_failover) = [] /\
+  f_dts (ts_f (c5_trun wit_cfg c5_tinit wit_failover)) = [] /\
+  fold_left (fun a s => a + c5_cnt c5_is_end (c5_outs (ct_base s))) (c5_tmodel_trace wit_cfg c5_tinit wit_failover) 0 = 1 /\
+  map (fun s => c5_runs (c5_now (ct_base s)) (ct_tm_pre s) (ct_xop s)) (c5_tmodel_trace wit_cfg c5_tinit wit_failover)
+    = [true; true; false; false; false; false; true] /\
+  length (f_dts (ts_f (c5_trun wit_cfg c5_tinit wit_paused))) = 1%nat.
+Proof. exact failover_accepted. Qed.
+Print Assumptions C05_timer_failover.
+
 (* ---- recorded findings: the faithful model violates the statement; concrete witnesses ---- *)
 (* formerly C05_pending_flexible_refuted: since /repo 7c445bb the same run is accepted by the whole oracle *)
 Theorem C05_pending_flexible_fixed :
@@ -147,14 +185,14 @@ Theorem C05_lost_start_refuted :
 Proof. exact lost_start_refuted. Qed.
 Print Assumptions C05_lost_start_refuted.
 
-Theorem C05_start_at_end_instant_refuted :
+(* formerly C05_start_at_end_instant_refuted: since /repo 51cd8e9 the start timer at exactly end_time no longer
+   announces the downtime again (1 DowntimeStart instead of 3) and the whole oracle accepts the run *)
+Theorem C05_start_at_end_instant_fixed :
   c5_wf_run wit_cfg 0 init_full wit_endinstant = true /\
-  total_cnt c5_is_start (c5_model_trace wit_cfg init_full wit_endinstant) = 3 /\
-  exists s, In s (c5_model_trace wit_cfg init_full wit_endinstant) /\
-            c5_chk_start s = false /\ c5_sig_endinstant s = true /\ c5_chk_depth s = true /\
-            length (filter (dt_in_effect (c5_now s)) (c5_post s)) = 0%nat.
-Proof. exact start_at_end_instant_refuted. Qed.
-Print Assumptions C05_start_at_end_instant_refuted.
+  total_cnt c5_is_start (c5_model_trace wit_cfg init_full wit_endinstant) = 1 /\
+  c5_oracle KService (c5_model_trace wit_cfg init_full wit_endinstant) = [].
+Proof. exact start_at_end_instant_fixed. Qed.
+Print Assumptions C05_start_at_end_instant_fixed.
 
 (* non-vacuity: a reachable run with a fixed downtime started by the timer, a flexible one chained to it,
    a non-OK result, a depth read, a clean-up and a removal meets every premise, shows none of the findings'
